@@ -59,16 +59,15 @@ func (f *Decf) Call(s *slip.Scope, args slip.List, depth int) (result slip.Objec
 		case slip.DoubleFloat:
 			delta = -td
 		case *slip.LongFloat:
-			z := (*big.Float)(td)
-			result = (*slip.LongFloat)(z.Neg(z))
+			// Negate into a new value, the argument must not change.
+			var z big.Float
+			delta = (*slip.LongFloat)(z.Neg((*big.Float)(td)))
 		case *slip.Bignum:
-			z := (*big.Int)(td)
-			result = (*slip.Bignum)(z.Neg(z))
+			var z big.Int
+			delta = (*slip.Bignum)(z.Neg((*big.Int)(td)))
 		case *slip.Ratio:
-			den := (*big.Rat)(td).Denom()
-			num := (*big.Rat)(td).Num()
-			num = (num.Neg(num))
-			delta = (*slip.Ratio)((*big.Rat)(td).SetFrac(num, den))
+			var z big.Rat
+			delta = (*slip.Ratio)(z.Neg((*big.Rat)(td)))
 		case slip.Complex:
 			delta = slip.Complex(complex(-real(td), -imag(td)))
 		default:
